@@ -464,6 +464,9 @@ func ruleC20(c *Ctx) {
 							continue
 						}
 					}
+					if constructionOnly(st) {
+						continue // a fresh value built field by field and never handed to a decoder
+					}
 					n++
 					if report {
 						c.bad("C20-R4", shortFn(f), "store "+on+"."+fn, c.P.InstrPos(st), "library code assigns "+on+"."+fn+" after decoding: full validation can return a value the pre-decode never saw")
